@@ -674,7 +674,9 @@ def opTransSearch (j : Json) : R Json := do
       for r in rs do
         match r with
         | some b => found := found.push (Json.mkObj [("module", md), ("fn", b.fn), ("input", b.input), ("program", b.program),
-                                                      ("model", b.model), ("panics", b.panics)])
+                                                      ("model", b.model), ("panics", b.panics),
+                                                      -- a run that got stuck on a construct outside the subset says nothing about the property
+                                                      ("violates", b.violates && !(b.program.startsWith "stuck"))])
         | none => pure ()
   return Json.mkObj [("searched", Json.arr searched), ("found", Json.arr found)]
 
